@@ -3,6 +3,6 @@ From Coq Require Extraction.
 From Coq Require Import ExtrOcamlBasic.
 From Coq Require Import List ZArith NArith.
 From Muduo Require Import Base_Bytes C04_Model Gen_C04.
-Extraction "model.ml" C04_Model.step C04_Model.init C04_Model.poll_ready C04_Model.quiescent
+Extraction "model.ml" C04_Model.step C04_Model.step_o Gen_C04.quit_stores_before_wakeup C04_Model.init C04_Model.poll_ready C04_Model.quiescent
   C04_Model.pinned_shape C04_Model.repaired_shape C04_Model.fixed_shape Gen_C04.gen_shape
   Base_Bytes.xbyte_of_N Base_Bytes.xN_of_byte Base_Bytes.xanchor.
